@@ -47,6 +47,8 @@ def jobs(tier):
             out.append(("v%d.req%d" % (version, req), "job", dict(version=version, req=req, route="magnet")))
         out.append(("v%d.cli" % version, "job", dict(version=version, req=reqs[-1], route="cli")))
         out.append(("v%d.cli-verbose" % version, "job", dict(version=version, req=0, route="cli-v")))
+        for req in reqs[1:-1] if version == 3 else ():      # every explicit request through the command-line route too
+            out.append(("v%d.cli.req%d" % (version, req), "job", dict(version=version, req=req, route="cli")))
     out.append(("v1.urllist-string", "job", dict(version=1, req=0, route="magnet", ws_string=True)))
     for version in (1, 3):
         out.append(("v%d.second-call-in-process" % version, "job", dict(version=version, req=0, route="magnet", warmup=True)))
